@@ -52,37 +52,37 @@ add("C28", "exploration", "property-based testing with a structural validity pre
     "Unused binders allowed; constraints may mention any query placeholder.", "DESIGN.md 2/C28")
 add("C05", "exploration", "property-based testing against a reference model (greatest fixed point) + stateful differential (shared solver instance vs fresh solver)",
     "Generated auto-trait / coinductive programs incl. dense cyclic ones; closed goals must get the GFP value of the reference model and the same answer on a shared solver instance in any generated order.",
-    "SLG answers on nested coinductive cycles are a recorded known finding (signature-keyed); hand-written strict regression inputs cover that area.", "DESIGN.md 3/C05")
+    "SLG answers on nested coinductive cycles are a recorded known finding (signature-keyed); hand-written strict regression inputs cover that area.", "DESIGN.md 2/C05")
 add("C06", "exploration", "property-based testing against a reference implied-bounds closure + stateful differential (goal with / without hypothesis on one solver)",
     "Generated supertrait hierarchies and struct where-clauses; goal pairs with and without hypotheses in generated interleavings: exactness against the reference closure, and no leak of hypotheses between solves.",
-    "Closure bounded (truncated closure only weakens the oracle); recursive solver's ambiguity with existential trait parameters is a known finding.", "DESIGN.md 3/C06")
+    "Closure bounded (truncated closure only weakens the oracle); recursive solver's ambiguity with existential trait parameters is a known finding.", "DESIGN.md 2/C06")
 add("C07", "exploration", "property-based testing against an independent associated-type normaliser (one-way matching + ground evaluator)",
     "Generated coherent associated-type programs; Normalize / projection-equality goals with unknown, right and wrong candidates, forall variants: Unique answers must name exactly the reference value, None only when no impl applies.",
-    "Programs coherent by construction; nested projections normalised recursively up to depth 6.", "DESIGN.md 3/C07")
+    "Programs coherent by construction; nested projections normalised recursively up to depth 6.", "DESIGN.md 2/C07")
 add("C08", "exploration", "property-based testing against a rule table for the built-in traits",
     "Generated programs with Sized / Copy / Clone / Tuple / FnPtr lang items and nested built-in types; closed goals compared with a rule table written from the property and the chalk book.",
-    "Rule table (harness/src/builtin.rs) trusted; user traits on dyn types other than `dyn Tr: Tr` not judged.", "DESIGN.md 3/C08")
+    "Rule table (harness/src/builtin.rs) trusted; user traits on dyn types other than `dyn Tr: Tr` not judged.", "DESIGN.md 2/C08")
 add("C18", "exploration", "property-based testing: one-sided implication between real unification and the could-match pre-filter",
     "Generated (clause conclusion, goal) pairs and generated programs: whenever InferenceTable::relate unifies them, could_match / impls_for_trait must not have filtered the clause out.",
-    "Only the soundness direction of the filter is a property; precision is not judged.", "DESIGN.md 3/C18")
+    "Only the soundness direction of the filter is a property; precision is not judged.", "DESIGN.md 2/C18")
 add("C19", "exploration", "property-based testing of the coherence checker for totality and priority consistency against the reference evaluator",
     "Generated impl sets with controlled header relations: coherence() never panics under either solver; on Ok, overlapping impls have distinct priorities ordered by specialisation over the bounded universe.",
-    "Bounded universe (depth <= 3) decides 'applies'; marker traits and negative pairs exempt as the property states.", "DESIGN.md 3/C19")
+    "Bounded universe (depth <= 3) decides 'applies'; marker traits and negative pairs exempt as the property states.", "DESIGN.md 2/C19")
 add("C20", "exploration", "property-based testing against a direct implementation of the orphan rule",
     "Generated single-impl programs over local / upstream / fundamental / built-in / parameter arguments in all positions; orphan_check() under both solvers compared with the rule as stated.",
-    "The rule as stated in the property is the oracle.", "DESIGN.md 3/C20")
+    "The rule as stated in the property is the oracle.", "DESIGN.md 2/C20")
 add("C21", "exploration", "property-based testing: implied-bound soundness of accepted programs against the reference evaluator",
     "Generated programs written without regard to soundness; for those checked_program() accepts, every implied bound must hold in the reference model over the bounded universe.",
-    "Acceptance through circular implied bounds is a recorded known finding.", "DESIGN.md 3/C21")
+    "Acceptance through circular implied bounds is a recorded known finding.", "DESIGN.md 2/C21")
 add("C22", "exploration", "round-trip property-based testing with a grammar-directed program generator and a normalising equivalence",
     "Generated programs over every item/type/attribute kind the writer can express, the solver-check model programs and every program block of /repo/tests: print, reparse, compare modulo where-clause sets and implied trait bounds, then a second exact round.",
-    "Closures, coroutines, foreign types, program clauses, fn-def types and name clashes are outside the domain (counted); dropped fn ABI and the non-convergent equality bound are known findings (masked by construction so the search continues).", "DESIGN.md 3/C22")
+    "Closures, coroutines, foreign types, program clauses, fn-def types and name clashes are outside the domain (counted); dropped fn ABI and the non-convergent equality bound are known findings (masked by construction so the search continues).", "DESIGN.md 2/C22")
 add("C23", "exploration", "differential property-based testing: answers on the original program vs the program printed by the recording database wrapper",
     "Programs of the C01/C05/C06/C07/C08 fragments with goal histories solved through LoggingRustIrDatabase by both solvers; the logged text must lower, the goals must lower against it, and a fresh solver on it must give identical answers; the wrapper must not change answers.",
-    "Goals naming items the solver never queried are a known finding (stubbed, search continues); SLG order-dependent differences classified with the C13 classes.", "DESIGN.md 3/C23")
+    "Goals naming items the solver never queried are a known finding (stubbed, search continues); SLG order-dependent differences classified with the C13 classes.", "DESIGN.md 2/C23")
 add("C24", "exploration", "fuzzing of parser + lowering with byte, token and mutation generators (crash oracle)",
     "Arbitrary bytes, token soup over the grammar's vocabulary, mutated valid programs/goals from seeds and /repo/tests, planted semantic errors: Ok or Err, never a panic or process crash.",
-    "Stack exhaustion on pathological nesting not judged.", "DESIGN.md 3/C24")
+    "Stack exhaustion on pathological nesting not judged.", "DESIGN.md 2/C24")
 add("C29", "exploration", "property-based testing of Subtype goals against an independent variance walk and outlives entailment",
     "Generated skeleton types instantiated with lifetimes (static, placeholders, unknowns), optional structure mutation; the solvers' constraints must be equivalent to the variance walk's requirements under reflexivity + transitivity.",
-    "Convention fixed by the pinned variance tests; higher-ranked fn pointers excluded.", "DESIGN.md 3/C29")
+    "Convention fixed by the pinned variance tests; higher-ranked fn pointers excluded.", "DESIGN.md 2/C29")
